@@ -63,6 +63,9 @@ func (store *Store) accountQueryContext(qb query.Builder, q GetAccountsQuery) (s
 			}
 			switch address := value.(type) {
 			case string:
+				if err := validateAddressFilter(address); err != nil {
+					return "", nil, err
+				}
 				return filterAccountAddress(address, "accounts.address"), nil, nil
 			default:
 				return "", nil, newErrInvalidQuery("unexpected type %T for column 'address'", address)
